@@ -7,6 +7,7 @@
 
 """Subpackage for deprecated functions for Observation mode."""
 
+import sys
 from collections import Counter
 from collections.abc import Iterable, Iterator, Mapping, Sequence
 from typing import TYPE_CHECKING, NamedTuple, Union
@@ -377,6 +378,24 @@ def _run_debug_mode_deprecated(
     return processors, final_logs
 
 
+def _run_with_parameters_note(func, index_and_parameter):  # pragma: no cover
+    """Run one pipeline, the parameters of a failing run are attached to the error."""
+    try:
+        return func(index_and_parameter)
+    except Exception as exc:
+        _, parameter_dict, _ = index_and_parameter
+
+        # In Python 3.11+, add context notes to the exception
+        if sys.version_info >= (3, 11):
+            exc.add_note(
+                "This error occurred in 'Observation' mode with the following parameters:"
+            )
+            for key, value in parameter_dict.items():
+                exc.add_note(f"  - {key!r}: {value!r}")
+
+        raise
+
+
 # ruff: noqa: C901
 @deprecated("This function will be removed")
 def _run_observation_deprecated(
@@ -430,7 +449,11 @@ def _run_observation_deprecated(
         if observation.with_dask:
             dataset_list = db.from_sequence(lst).map(_apply_pipeline).compute()
         else:
-            dataset_list = list(map(_apply_pipeline, tqdm(lst)))
+            # Note: no 'map' here, a 'StopIteration' raised by a model would be swallowed
+            dataset_list = [
+                _run_with_parameters_note(_apply_pipeline, element)
+                for element in tqdm(lst)
+            ]
 
         # prepare lists for to-be-merged datasets
         parameters: list[list[xr.Dataset]] = [
@@ -513,7 +536,11 @@ def _run_observation_deprecated(
         if observation.with_dask:
             dataset_list = db.from_sequence(lst).map(_apply_pipeline).compute()
         else:
-            dataset_list = list(map(_apply_pipeline, tqdm(lst)))
+            # Note: no 'map' here, a 'StopIteration' raised by a model would be swallowed
+            dataset_list = [
+                _run_with_parameters_note(_apply_pipeline, element)
+                for element in tqdm(lst)
+            ]
 
         # prepare lists/dictionaries for to-be-merged datasets
         parameters = [[] for _ in range(len(observation.parameter_mode.enabled_steps))]
@@ -596,7 +623,11 @@ def _run_observation_deprecated(
         if observation.with_dask:
             dataset_list = db.from_sequence(lst).map(_apply_pipeline).compute()
         else:
-            dataset_list = list(map(_apply_pipeline, tqdm(lst)))
+            # Note: no 'map' here, a 'StopIteration' raised by a model would be swallowed
+            dataset_list = [
+                _run_with_parameters_note(_apply_pipeline, element)
+                for element in tqdm(lst)
+            ]
 
         # prepare lists for to-be-merged datasets
         logs = []
